@@ -7,13 +7,13 @@ from harness import common, gens, impl, oracles, recv
 from harness.common import Stream, hexb
 
 PID = "C18"
-LEAN_MODULES = ["Astm.Proofs.C18", "Astm.State.C18"]
+LEAN_MODULES = ["Astm.Proofs.C18", "Astm.State.C18", "Astm.Surface.C18"]
 THEOREMS = [
     "Astm.C18.frames_have_valid_checksums", "Astm.C18.templates_numbered_and_terminated",
     "Astm.C18.placeholders_land_in_schema_fields", "Astm.C18.converted_line_delivers_once_and_closes",
     "Astm.C18.adapter_glue", "Astm.C18.vendor_lines_start_with_stx", "Astm.C18.ordinary_frames_not_taken_over",
     "Astm.C18.example_conversion",
-    "Astm.C18.anchored_code_keeps_no_other_state",
+    "Astm.C18.anchored_code_keeps_no_other_state", "Astm.C18.anchored_code_keeps_its_signatures",
 ]
 RULE = ("lines generated from the vendor grammars: miniVidas = leading mt tag followed by any subset of the 19 optional tags "
         "in their fixed order with ids / names / values over printable ASCII and UTF-8 text (no field delimiter), any valid "
